@@ -12,6 +12,9 @@ and returns Phi / RT = N_A eps_bar / (R T) = ln(p / p0).
 The only convention taken over from the library is the NUMBER OF TERMS of the (slowly converging) cylinder series, which the
 published equation leaves open (an infinite sum): `series_terms(L)`. It is a parameter of `phi_cylinder`.
 
+The second part (hk_phi_slit / hk_phi_cylinder / hk_phi_sphere) holds the published equations of the classic one-layer HK family (Horvath-Kawazoe slit,
+Saito-Foley cylinder - the infinite series summed to convergence -, Cheng-Yang sphere).
+
 Used by tools/props/c17.py (independent expectation of the run-time oracle). This module imports nothing from pygaps.
 """
 import math
@@ -162,6 +165,90 @@ def phi_sphere(L, T, ads, mat):
 
 
 PHI = {'slit': phi_slit, 'cylinder': phi_cylinder, 'sphere': phi_sphere}
+
+
+# ------------------------------------------------------------------ the classic HK family (one adsorbate layer): published equations
+# Horvath & Kawazoe 1983 (slit), Saito & Foley 1991 (cylinder), Cheng & Yang 1994 (sphere), as written in the docstring of
+# pygaps.characterisation.psd_micro.psd_horvath_kawazoe. N_A eps / (R T) = ln(p / p0).
+def hk_phi_slit(L, T, ads, mat):
+    """N_A (n_h A_gh + n_g A_gg) / (sigma^4 (L - 2 d_0)) [sigma^10 / (9 d_0^9) - sigma^4 / (3 d_0^3) - sigma^10 / (9 (L - d_0)^9) + sigma^4 / (3 (L - d_0)^3)]"""
+    d_g, d_h = ads['molecular_diameter'], mat['molecular_diameter']
+    n_g, n_h = ads['surface_density'], mat['surface_density']
+    a_gg, a_gh = dispersion_constants(ads, mat)
+    d_0 = (d_g + d_h) / 2
+    sigma = (2.0 / 5.0) ** (1.0 / 6.0) * d_0
+    br = sigma ** 10 / (9 * d_0 ** 9) - sigma ** 4 / (3 * d_0 ** 3) - sigma ** 10 / (9 * (L - d_0) ** 9) + sigma ** 4 / (3 * (L - d_0) ** 3)
+    return N_A / (R_GAS * T) * (n_h * a_gh + n_g * a_gg) / ((sigma * NM) ** 4 * (L - 2 * d_0)) * br
+
+
+_LOG_AB = []
+
+
+def _log_coeff(k):
+    """(ln alpha_k, ln beta_k) of the Saito-Foley series (closed form of the recursion alpha_k = ((-4.5 - k) / k)^2 alpha_(k-1), alpha_0 = 1)"""
+    while len(_LOG_AB) <= k:
+        j = len(_LOG_AB)
+        _LOG_AB.append((2 * (math.lgamma(j + 5.5) - math.lgamma(5.5) - math.lgamma(j + 1)), 2 * (math.lgamma(j + 2.5) - math.lgamma(2.5) - math.lgamma(j + 1))))
+    return _LOG_AB[k]
+
+
+def saito_foley_sum(a, terms=None, tol=1e-18, cap=400000):
+    """sum_k 1 / (k + 1) (1 - a)^(2k) [21/32 alpha_k a^10 - beta_k a^4],  a = d_0 / L.
+    terms=None: the INFINITE sum of the publication, summed until both terms are below `tol` of the sum of magnitudes (past the maximum
+    of the terms, which first GROW with k: alpha_k ~ k^9); terms=n: the first n terms (k = 0 .. n - 1).  -> (sum, number of terms)"""
+    b = 1 - a
+    if b <= 0:
+        return 21.0 / 32.0 * a ** 10 - a ** 4, 1
+    lb = 2 * math.log(b)
+    la10, la4 = math.log(21.0 / 32.0) + 10 * math.log(a), 4 * math.log(a)
+    k_peak = 9 / (-lb)
+    parts, mag, k = [], 0.0, 0
+    while k < (cap if terms is None else terms):
+        la, lbk = _log_coeff(k)
+        ta = math.exp(la + k * lb + la10) / (k + 1)
+        tb = math.exp(lbk + k * lb + la4) / (k + 1)
+        parts += [ta, -tb]
+        mag += ta + tb
+        k += 1
+        if terms is None and k > k_peak and ta < tol * mag and tb < tol * mag:
+            break
+    return math.fsum(parts), k
+
+
+def documented_terms(L):
+    """the number of terms the library documents for the Saito-Foley series ('25 * pore radius ensures that layer convergence is achieved')"""
+    return max(1, int(L * 25))
+
+
+def hk_phi_cylinder(L, T, ads, mat, terms=None):
+    """3/4 pi N_A (n_h A_gh + n_g A_gg) / d_0^4  *  saito_foley_sum(d_0 / L)"""
+    d_g, d_h = ads['molecular_diameter'], mat['molecular_diameter']
+    n_g, n_h = ads['surface_density'], mat['surface_density']
+    a_gg, a_gh = dispersion_constants(ads, mat)
+    d_0 = (d_g + d_h) / 2
+    return 0.75 * math.pi * N_A / (R_GAS * T) * (n_h * a_gh + n_g * a_gg) / (d_0 * NM) ** 4 * saito_foley_sum(d_0 / L, terms)[0]
+
+
+def hk_phi_sphere(L, T, ads, mat):
+    """Cheng & Yang 1994: 6 (N_1 eps12 + N_2 eps22) L^3 / (L - d_0)^3 [ -(d_0/L)^6 (T_1/12 + T_2/8) + (d_0/L)^12 (T_3/90 + T_4/80) ],
+    s = (L - d_0) / L,  T_1 = (1-s)^-3 - (1+s)^-3,  T_2 = (1+s)^-2 - (1-s)^-2,  T_3 = (1-s)^-9 - (1+s)^-9,  T_4 = (1+s)^-8 - (1-s)^-8,
+    N_1 = 4 pi L^2 n_h,  N_2 = 4 pi (L - d_0)^2 n_g,  eps12 = A_gh / (4 d_0^6),  eps22 = A_gg / (4 d_g^6)"""
+    d_g, d_h = ads['molecular_diameter'], mat['molecular_diameter']
+    n_g, n_h = ads['surface_density'], mat['surface_density']
+    a_gg, a_gh = dispersion_constants(ads, mat)
+    d_0 = (d_g + d_h) / 2
+    s = (L - d_0) / L
+    t1 = (1 - s) ** -3 - (1 + s) ** -3
+    t2 = (1 + s) ** -2 - (1 - s) ** -2
+    t3 = (1 - s) ** -9 - (1 + s) ** -9
+    t4 = (1 + s) ** -8 - (1 - s) ** -8
+    n1 = 4 * math.pi * (L * NM) ** 2 * n_h
+    n2 = 4 * math.pi * ((L - d_0) * NM) ** 2 * n_g
+    e12, e22 = a_gh / (4 * (d_0 * NM) ** 6), a_gg / (4 * (d_g * NM) ** 6)
+    return N_A / (R_GAS * T) * 6 * (n1 * e12 + n2 * e22) / s ** 3 * (-(d_0 / L) ** 6 * (t1 / 12 + t2 / 8) + (d_0 / L) ** 12 * (t3 / 90 + t4 / 80))
+
+
+HK_PHI = {'slit': hk_phi_slit, 'cylinder': hk_phi_cylinder, 'sphere': hk_phi_sphere}
 
 
 def radius_of_width(geo, w, d_h):
